@@ -90,7 +90,7 @@ class Cubic(GenericModel):
         return self.t, [self.x]
 
     def getdXdt(self, t, x):
-        return [np.array([t ** 3])]
+        return [np.array([float(t) ** 3])]
 
     def getDt(self, dXdt):
         return self.h
